@@ -466,9 +466,40 @@ def _solve(i):
     return i, res, solver, time.time() - t0, model, reason
 
 
+def _fresh_context_proof(ob, timeout_s):
+    """the plain query in a context of its own (terms translated, so their numbering - which z3's instantiation order follows - does not depend on how many
+    other obligations the parent process built before): `unsat` is a proof like any other; anything else is ignored"""
+    ctx = z3.Context()
+    fmls = [h.translate(ctx) for h in ob.hyps if z3.is_expr(h)] + [z3.Not(ob.goal).translate(ctx)]
+    for opts in (None, NOMBQI):
+        s = z3.Solver(ctx=ctx)
+        s.set("timeout", int(timeout_s * 1000))
+        for k, v in (opts or {}).items():
+            s.set(k, v)
+        s.add(*fmls)
+        import threading
+        timer = threading.Timer(timeout_s + 1.0, ctx.interrupt)
+        timer.daemon = True
+        timer.start()
+        try:
+            r = s.check()
+        except z3.Z3Exception:
+            r = z3.unknown
+        finally:
+            timer.cancel()
+        if r == z3.unsat:
+            return True
+    return False
+
+
 def _child(i, conn):
     try:
         if _CFG.get("attempt") == 2:
+            t0 = time.time()
+            ob = _OBS[i]
+            if ob.expect != "sat" and _fresh_context_proof(ob, min(_CFG.get("timeout_s", 10), 15)):
+                conn.send((i, "PROVED", "z3(retry in a fresh context)", time.time() - t0, {}, ""))
+                return
             z3.set_param("smt.random_seed", 11)      # the retry explores another search order
             z3.set_param("sat.random_seed", 11)
         conn.send(_solve(i))
